@@ -279,3 +279,105 @@ func c12Assets(c *vrep.Ctx) {
 		}
 	}
 }
+
+// c12History: LoadLicenses and AddContent interleaved on ONE classifier - the same key may already
+// be there (added directly, or loaded from an earlier state of the tree). Every sequence of up to N
+// operations; the reference classifier gets AddContent for every file of every load, in order.
+func init() { vRegister("c12_history", c12History) }
+
+func c12History(c *vrep.Ctx) {
+	texts := map[string][]string{
+		"Foo": {"aa bb cc aa bb", "cc bb aa cc bb aa dd", "aa bb cc aa bb ee ff"},
+		"Bar": {"gg hh ii gg hh", "hh gg ii hh gg jj"},
+	}
+	type op struct {
+		load  bool
+		files map[string]int // name -> text version
+	}
+	ops := []op{
+		{false, map[string]int{"Foo": 0}}, {false, map[string]int{"Foo": 1}}, {false, map[string]int{"Bar": 0}},
+		{true, map[string]int{"Foo": 0}}, {true, map[string]int{"Foo": 1}}, {true, map[string]int{"Foo": 2, "Bar": 1}}, {true, map[string]int{"Bar": 0}},
+	}
+	depth := c.Pick(3, 4)
+	queries := [][]byte{[]byte("zqa aa bb cc aa bb zqb"), []byte("cc bb aa cc bb aa dd"), []byte("aa bb cc aa bb ee ff"), []byte("gg hh ii gg hh\nhh gg ii hh gg jj")}
+	c.R.Rule = fmt.Sprintf("ALL sequences of 1..%d operations from %d on one classifier (AddContent of License/Foo or License/Bar with one of several texts; LoadLicenses of a directory tree holding Foo and/or Bar with one of several texts - the tree is rewritten between loads): corpus (keys and word sequences) and Match on %d queries must equal a classifier that received AddContent for every file of every load, in order; non-trivial = sequences in which a load meets a key that is already there", depth, len(ops), len(queries))
+	c.Bound("depth", depth)
+	tmp, err := os.MkdirTemp("", "verif-c12h-")
+	if err != nil {
+		panic(err)
+	}
+	defer os.RemoveAll(tmp)
+	n := 0
+	body := func(r *vx.Run) {
+		k := 1 + r.Choose(depth, "len")
+		seq := make([]int, k)
+		for i := range seq {
+			seq[i] = r.Choose(len(ops), "op")
+		}
+		if r.Scout() {
+			return
+		}
+		n++
+		root := filepath.Join(tmp, fmt.Sprintf("t%d", n))
+		defer os.RemoveAll(root)
+		got, want := NewClassifier(0.8), NewClassifier(0.8)
+		seen := map[string]bool{}
+		meets := false
+		var desc []string
+		msg := ""
+		for _, oi := range seq {
+			o := ops[oi]
+			var names []string
+			for name := range o.files {
+				names = append(names, name)
+			}
+			sort.Strings(names) // the walk visits Bar before Foo
+			if o.load {
+				os.RemoveAll(root)
+				for _, name := range names {
+					p := filepath.Join(root, "License", name, "license.txt")
+					os.MkdirAll(filepath.Dir(p), 0o755)
+					os.WriteFile(p, []byte(texts[name][o.files[name]]), 0o644)
+				}
+				if e := vPanics(func() {
+					if err := got.LoadLicenses(root); err != nil {
+						panic("LoadLicenses: " + err.Error())
+					}
+				}); e != "" {
+					msg = e
+					break
+				}
+			}
+			for _, name := range names {
+				if !o.load {
+					got.AddContent("License", name, "license.txt", []byte(texts[name][o.files[name]]))
+				} else if seen[name] {
+					meets = true
+				}
+				want.AddContent("License", name, "license.txt", []byte(texts[name][o.files[name]]))
+				seen[name] = true
+			}
+			desc = append(desc, fmt.Sprintf("%s%v", map[bool]string{false: "Add", true: "Load"}[o.load], o.files))
+		}
+		if msg == "" {
+			if a, b := fmt.Sprint(corpusDump(want)), fmt.Sprint(corpusDump(got)); a != b {
+				msg = fmt.Sprintf("corpus differs: AddContent only gives %s, the history gives %s", a, b)
+			}
+		}
+		for _, q := range queries {
+			if a, b := vFmt(want.Match(q)), vFmt(got.Match(q)); a != b && msg == "" {
+				msg = fmt.Sprintf("Match(%q): AddContent only %s, the history %s", q, a, b)
+			}
+		}
+		r.Note = map[string]interface{}{"id": strings.Join(desc, " "), "msg": msg, "nt": meets}
+	}
+	c.Run(vSplitExplorer(c, 0, 2), body, func(r *vx.Run) {
+		if r.Note["nt"].(bool) {
+			c.R.Nontrivial++
+		}
+		if m := r.Note["msg"].(string); m != "" {
+			id := r.Note["id"].(string)
+			c.Violate("c12_history:"+strings.ReplaceAll(id, " ", "_"), id+": "+m, r, m)
+		}
+	})
+}
